@@ -26,6 +26,10 @@ use ractor_cluster_derive::RactorMessage;
 use crate::node::NodeSessionMessage;
 use crate::NodeId;
 
+#[cfg(slawlor_ractor_verif)]
+#[path = "/verif/hooks/cluster_remote_actor.rs"]
+pub mod verif_probe;
+
 #[cfg(test)]
 mod tests;
 
